@@ -51,6 +51,22 @@ CHECKS = [
           "draws may only be compared (any other use raises). Seed reproducibility with the real generators.",
   "note": "convergence of empirical frequencies is inferred from the exact law plus i.i.d. draws of numpy's Generator.choice / "
           "random.random (trusted), never observed; <=3 photons, <=4 modes"},
+ {"id": "C08", "engine": "E2", "ref": "DESIGN.md §3 C08",
+  "technique": "explicit-state BFS over the real API on a pool of live objects; invariant on every transition",
+  "text": "Breadth-first search from a pool {parent, plain sub, heralded sub, parent already holding the heralded sub, copy "
+          "slot, state}; each transition calls the real API (add in every placement incl. ancilla strictly inside the span, "
+          "+, edits of subs after use, copy/freeze/rewrites, 8 observers, 17 calls that must be refused); states are "
+          "deduplicated on complete fingerprints (observables, hidden ancilla lists, deep spec structure); on every "
+          "transition every object except the receiver - and the receiver too for a refused call - must be unchanged. "
+          "Scripted converter/tomography scenarios fingerprint every shared module-level gate instance.",
+  "note": "depth 2 (quick) / 3 (thorough) - the space does not close (edits grow circuits); Parameter sharing is by design and outside the fingerprint"},
+ {"id": "C09", "engine": "E1", "ref": "DESIGN.md §3 C09",
+  "technique": "bounded exhaustive enumeration of constructible circuits x rewrite sequences; differential against an untouched twin",
+  "text": "Every program up to the depth bound over a rich alphabet (heralded/plain/grouped/lossy subs, reversed and non-adjacent "
+          "beam splitters, loss, 3-cycles, unitary blocks, barriers, heralds, Parameters) x every sequence of the five "
+          "rewrites up to the length bound; after each step U_full, heralds and input size equal an untouched twin, the "
+          "structural post-conditions hold, and editing any produced object leaves every other one's fingerprint unchanged.",
+  "note": "n=4, depth 2/3, rewrite length 2/3; construction legality taken from the implementation (decided in C01/C02)"},
 ]
 _REASON = "check not built yet in this session (work in progress; not a claim that the technique cannot apply)"
 NOT_YET = [(f"C{i:02d}", _REASON) for i in range(1, 20) if f"C{i:02d}" not in {c["id"] for c in CHECKS}]
